@@ -1,6 +1,7 @@
 import Spake2Model.Model.Spake2
 import Spake2Model.Model.System
 import Spake2Model.Model.Published
+import Std.Data.HashMap
 /-!
 Line protocol: one operation per input line, one canonical result per output line.
 The Python harness (`harness/impl.py`) executes the same lines against the real library.
@@ -40,7 +41,8 @@ structure St where
   systems : List (Nat × AnySys) := []
   /-- session id ↦ parameter id of the system it lives in -/
   sessOf : List (Nat × Nat) := []
-  elems : List (Nat × DElem) := []
+  /-- element registers (a hash map: scenarios create several 10^5 of them) -/
+  elems : Std.HashMap Nat DElem := {}
 
 def find {α : Type} (k : Nat) : List (Nat × α) → Option α
   | [] => none
@@ -48,6 +50,8 @@ def find {α : Type} (k : Nat) : List (Nat × α) → Option α
 
 def put {α : Type} (k : Nat) (v : α) (l : List (Nat × α)) : List (Nat × α) :=
   (k, v) :: l.filter (fun kv => kv.1 ≠ k)
+
+def findE {α : Type} (k : Nat) (m : Std.HashMap Nat α) : Option α := m[k]?
 
 def hexStr (b : Bytes) : String := if b.isEmpty then "-" else String.ofList ((hexlify b).map Char.ofNat)
 
@@ -212,6 +216,18 @@ def step (st : St) (line : String) : St × String :=
     | some gid, some q, some l, some d, some i, some bx, some byy =>
       ({ st with groups := put gid (.ed ⟨q, l, d, i, (bx, byy)⟩) st.groups }, "ok")
     | _, _, _, _, _, _, _ => bad
+  | ["paramsopt", pid, gid, m, n, s] =>
+    -- `_Params(group, ...)` with some seed arguments omitted (`~`): the constructor's defaults are the published seeds
+    let opt (x : String) (d : Bytes) : Option Bytes := if x = "~" then some d else parseHex x
+    match nat? pid, nat? gid, opt m Published.seedM, opt n Published.seedN, opt s Published.seedS with
+    | some pid, some gid, some m, some n, some s =>
+      match find gid st.groups with
+      | some g =>
+        match mkParams g.toGroup m n s with
+        | .ok p => ({ st with systems := put pid (mkSys g pid p) st.systems }, "ok")
+        | .error e => (st, errStr e)
+      | none => bad
+    | _, _, _, _, _ => bad
   | ["params", pid, gid, m, n, s] =>
     match nat? pid, nat? gid, parseHex m, parseHex n, parseHex s with
     | some pid, some gid, some m, some n, some s =>
@@ -317,69 +333,69 @@ def step (st : St) (line : String) : St × String :=
     | _, _ => bad
   | ["e.base", eid, gid] =>
     match nat? eid, nat? gid >>= (find · st.groups) with
-    | some eid, some g => let e := mkElem g g.toGroup.base; ({ st with elems := put eid e st.elems }, "ok " ++ e.show)
+    | some eid, some g => let e := mkElem g g.toGroup.base; ({ st with elems := st.elems.insert eid e }, "ok " ++ e.show)
     | _, _ => bad
   | ["e.zero", eid, gid] =>
     match nat? eid, nat? gid >>= (find · st.groups) with
-    | some eid, some g => let e := mkElem g g.toGroup.zero; ({ st with elems := put eid e st.elems }, "ok " ++ e.show)
+    | some eid, some g => let e := mkElem g g.toGroup.zero; ({ st with elems := st.elems.insert eid e }, "ok " ++ e.show)
     | _, _ => bad
   | ["e.dec", eid, gid, h] =>
     match nat? eid, nat? gid >>= (find · st.groups), parseHex h with
     | some eid, some g, some b =>
       match g.toGroup.dec b with
-      | .ok e => let e := mkElem g e; ({ st with elems := put eid e st.elems }, "ok " ++ e.show)
+      | .ok e => let e := mkElem g e; ({ st with elems := st.elems.insert eid e }, "ok " ++ e.show)
       | .error e => (st, errStr e)
     | _, _, _ => bad
   | ["e.decu", eid, gid, h] =>
     match nat? eid, nat? gid >>= (find · st.groups), parseHex h with
     | some eid, some (.ed c), some b =>
       match Ed25519.decUnknown c b with
-      | .ok e => let e := DElem.ed c e; ({ st with elems := put eid e st.elems }, "ok " ++ e.show)
+      | .ok e => let e := DElem.ed c e; ({ st with elems := st.elems.insert eid e }, "ok " ++ e.show)
       | .error e => (st, errStr e)
     | _, _, _ => bad
   | ["e.arb", eid, gid, h] =>
     match nat? eid, nat? gid >>= (find · st.groups), parseHex h with
     | some eid, some g, some b =>
       match g.toGroup.arb b with
-      | .ok e => let e := mkElem g e; ({ st with elems := put eid e st.elems }, "ok " ++ e.show)
+      | .ok e => let e := mkElem g e; ({ st with elems := st.elems.insert eid e }, "ok " ++ e.show)
       | .error e => (st, errStr e)
     | _, _, _ => bad
   | ["e.add", eid, a, b] =>
-    match nat? eid, nat? a >>= (find · st.elems), nat? b >>= (find · st.elems) with
+    match nat? eid, nat? a >>= (findE · st.elems), nat? b >>= (findE · st.elems) with
     | some eid, some a, some b =>
       match elemBin "add" a b with
-      | .ok e => ({ st with elems := put eid e st.elems }, "ok " ++ e.show)
+      | .ok e => ({ st with elems := st.elems.insert eid e }, "ok " ++ e.show)
       | .error e => (st, errStr e)
     | _, _, _ => bad
   | ["e.sub", eid, a, b] =>
-    match nat? eid, nat? a >>= (find · st.elems), nat? b >>= (find · st.elems) with
+    match nat? eid, nat? a >>= (findE · st.elems), nat? b >>= (findE · st.elems) with
     | some eid, some a, some b =>
       match elemBin "sub" a b with
-      | .ok e => ({ st with elems := put eid e st.elems }, "ok " ++ e.show)
+      | .ok e => ({ st with elems := st.elems.insert eid e }, "ok " ++ e.show)
       | .error e => (st, errStr e)
     | _, _, _ => bad
   | ["e.smul", eid, a, n] =>
-    match nat? eid, nat? a >>= (find · st.elems), int? n with
+    match nat? eid, nat? a >>= (findE · st.elems), int? n with
     | some eid, some a, some n =>
       let r : R DElem := match a with
         | .int P v => (IG.smul P v n).map (DElem.int P)
         | .ed c v => (Ed25519.smul c v n).map (DElem.ed c)
       match r with
-      | .ok e => ({ st with elems := put eid e st.elems }, "ok " ++ e.show)
+      | .ok e => ({ st with elems := st.elems.insert eid e }, "ok " ++ e.show)
       | .error e => (st, errStr e)
     | _, _, _ => bad
   | ["e.neg", eid, a] =>
-    match nat? eid, nat? a >>= (find · st.elems) with
+    match nat? eid, nat? a >>= (findE · st.elems) with
     | some eid, some a =>
       let r : R DElem := match a with
         | .int _ _ => raise .AttributeError
         | .ed c v => (Ed25519.negate c v).map (DElem.ed c)
       match r with
-      | .ok e => ({ st with elems := put eid e st.elems }, "ok " ++ e.show)
+      | .ok e => ({ st with elems := st.elems.insert eid e }, "ok " ++ e.show)
       | .error e => (st, errStr e)
     | _, _ => bad
   | ["e.eq", a, b] =>
-    match nat? a >>= (find · st.elems), nat? b >>= (find · st.elems) with
+    match nat? a >>= (findE · st.elems), nat? b >>= (findE · st.elems) with
     | some a, some b =>
       let r : Bool := match a, b with
         | .int P x, .int P' y => decide (P = P' ∧ x = y)
@@ -388,7 +404,7 @@ def step (st : St) (line : String) : St × String :=
       (st, s!"ok {r}")
     | _, _ => bad
   | ["e.enc", a] =>
-    match nat? a >>= (find · st.elems) with
+    match nat? a >>= (findE · st.elems) with
     | some a => (st, "ok " ++ a.show)
     | none => bad
   | ["final", idA, idB, x, y, k, pw] =>
